@@ -101,8 +101,9 @@ def translate_c_from_projectq(projectq_str):
     # Ignore Measure instructions
     projectq_str = re.sub(r'Measure(.*)\n', '', projectq_str)
 
-    # Ignore allocate and deallocate instructions.
-    # Number of qubits is inferred by the abstract circuit, no (de)allocation will occur mid-circuit.
+    # The allocated qubits define the size of the register, including qubits no gate acts on.
+    # No (de)allocation will occur mid-circuit: the instructions themselves are then ignored.
+    allocated_qubits = [int(index) for index in re.findall(r'Allocate \| Qureg\[(\d+)\]', projectq_str)]
     projectq_str = re.sub(r'(.*)llocate(.*)\n', '', projectq_str)
     projectq_gates = [instruction for instruction in projectq_str.split("\n") if instruction]
 
@@ -125,6 +126,10 @@ def translate_c_from_projectq(projectq_str):
         else:
             raise ValueError(f"Gate '{gate_name}' not supported with project2abs translation")
         abs_circ.add_gate(gate)
+
+    # Qubits that were allocated but carry no gate still belong to the register
+    if allocated_qubits and max(allocated_qubits) + 1 > abs_circ.width:
+        abs_circ = Circuit(abs_circ._gates, n_qubits=max(allocated_qubits)+1)
 
     return abs_circ
 
